@@ -174,10 +174,13 @@ Definition noninterference_history_local_statement : Prop :=
     (forall q, In q h -> r_loc q <> other /\ is_walk (r_op q) = false) ->
     sys_get (sys_run sy h) other = sys_get sy other.
 
+(** (after the repair of D52 a read also runs the pending purge, which empties the
+    list of noted ids: the untouched location must have none noted, as is the
+    case between any two operations) *)
 Definition noninterference_history_statement : Prop :=
   forall h sy other,
     (forall q, In q h -> r_loc q <> other) ->
-    (forall l, sys_get sy other = Some l -> never_expires l) ->
+    (forall l, sys_get sy other = Some l -> never_expires l /\ st_pending (l_state l) = []) ->
     sys_get (sys_run sy h) other = sys_get sy other.
 
 Definition run_wf_statement : Prop :=
